@@ -18,6 +18,8 @@ macro_rules! dispatch {
             "C02" => $f::<props::c02::C02>($($arg),*),
             "C03" => $f::<props::c03::C03>($($arg),*),
             "C04" => $f::<props::c04::C04>($($arg),*),
+            "C05" => $f::<props::c05::C05>($($arg),*),
+            "C06" => $f::<props::c06::C06>($($arg),*),
             "C14" => $f::<props::c14::C14>($($arg),*),
             "C19" => $f::<props::c19::C19>($($arg),*),
             "C20" => $f::<props::c20::C20>($($arg),*),
